@@ -438,6 +438,18 @@ def native(seed=0, reduced=False):
                             max_site_displacement=float(np.abs(snap.mesh.sites - sites_before).max())))
         if not np.allclose(d0.mesh.sites * d0.coherence_length.magnitude, sites_before * d0.coherence_length.magnitude + np.array([[3.0, -1.5]]), atol=1e-12):
             bad.append(dict(what="the translated device's mesh is not the old mesh moved by the shift"))
+        em_ = d0.mesh.edge_mesh
+        mid_ = 0.5 * (d0.mesh.sites[em_.edges[:, 0]] + d0.mesh.sites[em_.edges[:, 1]])
+        if not np.allclose(em_.centers, mid_, atol=1e-9):
+            bad.append(dict(what="after an in-place translation the edge centres of the device's mesh are not the midpoints of its (moved) sites",
+                            max_distance=float(np.abs(em_.centers - mid_).max())))
+        ds_ = d0.mesh.dual_sites
+        if ds_ is not None:
+            tri_ = d0.mesh.elements
+            cc_ = d0.mesh.sites[tri_]
+            r_ = np.linalg.norm(cc_ - ds_[:, None, :], axis=2)
+            if not np.allclose(r_, r_[:, :1], rtol=1e-7, atol=1e-9):
+                bad.append(dict(what="after an in-place translation the dual sites are not the circumcentres of the (moved) triangles"))
     except Exception as e:  # noqa
         bad.append(dict(what=f"Device.translate(inplace=True) with a mesh raised {type(e).__name__}: {str(e)[:100]}"))
     if not reduced:
